@@ -49,7 +49,7 @@ def expected(truth):
     return "abn:%s" % truth[1:] if truth[0] == "e" else "sig"
 
 
-def gen_plans(rng, nthreads, per_thread):
+def gen_plans(rng, nthreads, per_thread, cs_choices=(0, 0, 300, 3000)):
     lines, truths = [], {}
     for k in range(nthreads):
         for i in range(per_thread):
@@ -60,7 +60,7 @@ def gen_plans(rng, nthreads, per_thread):
                 kind, n = "e", rng.choice([1, 2, 3, 127, 255, rng.randint(1, 255)])
             else:
                 kind, n = "s", rng.choice([9, 15, 2, 10, 14])
-            cs = rng.choice([0, 0, 300, 3000])
+            cs = rng.choice(cs_choices)
             dm = rng.choices("nsrz", weights=[30, 20, 30, 20])[0]
             delay = {"n": 0, "s": rng.randint(0, 3000), "r": 2000000, "z": 2000000}[dm]
             poison = "-" if rng.random() < 0.5 else str(rng.choice([0, 768, 9, 127, 255, 65535, 256]))
@@ -126,6 +126,15 @@ def project(log_lines, truths):
                 items.append(("W", f[4], int(f[5])))
             elif f[0] in ("H", "Sh", "Sw") and int(f[1]) == pid and job_of(pid, x) == j:
                 items.append((f[0], f[2], int(f[3])) if f[0] == "H" else (f[0], int(f[2])))
+        # handler invocations that did not touch this child (other managers' handlers, E directly
+        # followed by L) are no-ops of the model: dropped to keep histories readable
+        comp = []
+        for it in items:
+            if it[0] == "L" and comp and comp[-1][0] == "E":
+                comp.pop()
+            else:
+                comp.append(it)
+        items = comp
         # an ECHILD answer is only possible after the reap: move a late-logged `W r` before it
         wr = [x for x, it in enumerate(items) if it[0] == "W" and it[1] == "r"]
         hc = [x for x, it in enumerate(items) if it[0] == "H" and it[1] == "c"]
@@ -215,11 +224,12 @@ def run(ck):
                    ("C", 2, 60), ("C", 4, 40), ("C", 8, 30), ("C", 16, 20)]
     runs = []
     for ci, (mode, nt, per) in enumerate(configs):
-        text, truths = gen_plans(rng, nt, per)
-        runs.append({"name": "%s%d" % (mode, nt), "mode": mode, "threads": nt, "plans": text, "truths": truths, "ci": ci})
+        text, truths = gen_plans(rng, nt, per, (0, 300, 3000, 10000) if mode == "C" else (0, 0, 300, 3000))
+        runs.append({"name": "%s%d" % (mode, nt), "mode": mode, "threads": nt, "plans": text, "truths": truths, "ci": ci,
+                     "hseed": rng.randrange(1, 10**6)})
 
     def work(r):
-        p = ck.run([harness, "run", ck.path("log%d.txt" % r["ci"]), r["mode"], str(r["threads"]), "1"],
+        p = ck.run([harness, "run", ck.path("log%d.txt" % r["ci"]), r["mode"], str(r["threads"]), str(r["hseed"])],
                    input=r["plans"], timeout=900)
         lg = ck.path("log%d.txt" % r["ci"])
         return p.returncode, (open(lg).read().splitlines() if os.path.exists(lg) else []), p.stderr[-500:]
